@@ -88,7 +88,7 @@ _VALID_ID = re.compile(r"[a-z][A-Za-z0-9_]*\Z")
 def setup(ctx):
     warnings.simplefilter("ignore")
     R.self_test()
-    specs = [s for s in GP.build_specs() if "qudit" not in s.tags]
+    specs = [s for s in GP.build_specs() if "qudit" not in s.tags] + GP.build_custom_specs()
     _S["specs"] = specs
     _S["by_name"] = {s.name: s for s in specs}
     _S["small"] = [s for s in specs if 1 <= s.n <= 2]
@@ -281,8 +281,10 @@ def gen_gate(rng, n, specs, p_ctrl=0.22, max_q=None):
     p = spec.sample(rng)
     k = spec.n
     nctrl = 0
-    if rng.random() < p_ctrl and k + 1 <= n:
-        nctrl = 1 if (k + 2 > n or rng.random() < 0.75) else 2
+    if rng.random() < p_ctrl and k + 1 <= n and not ("custom" in spec.tags and k >= 2):
+        # (a controlled unknown two-qubit unitary has three qubits: the exporter's fall-back only covers one and two, and
+        # refuses it with its documented ValueError)
+        nctrl = 1 if (k + 2 > n or rng.random() < 0.75 or "custom" in spec.tags) else 2
     wires = [int(w) for w in rng.choice(n, size=k + nctrl, replace=False)] if k + nctrl else []
     cvals = tuple(int(rng.random() < 0.85) for _ in range(nctrl))
     m = np.asarray(spec.ref(p), dtype=complex)
